@@ -81,6 +81,8 @@ extern "C" int harness_main() {
   g_manifest_variant = 1; load_reference();
   // (a former output that the new manifest uses as a source must still be there, or the new manifest cannot be built at all)
   for (size_t i = 0; i < g_ref.size(); i++) for (size_t k = 0; k < g_ref[i].reads.size(); k++) if (!ref_producer(g_ref[i].reads[k])) VERIF_ASSUME(g_tree->exists(g_ref[i].reads[k]));
+  // (a dyndep file that has been deleted takes the part of the graph it describes with it: "appears nowhere in the graph" is only defined while the dyndep files exist)
+  for (int i = 0; i < 10 && sc->cmds[i].out; i++) if (sc->cmds[i].dyndep_text) VERIF_ASSUME(g_tree->exists(sc->cmds[i].out));
   if (verif_bool("recompact_first")) { std::vector<std::string> a; a.push_back("-t"); a.push_back("recompact"); MainRun m0 = run_ninja(a); VERIF_ASSERT(m0.rc == 0, "C08: -t recompact succeeds"); verif_reach("recompacted"); }
   if (verif_bool("build_first")) { InvocationOpts o; o.targets = split_words(sc->targets); o.run.parallelism = 1; InvocationResult r = invoke(o); VERIF_ASSERT(r.added && r.rc == 0, "the build with the new manifest succeeds"); load_reference(); }
   // dead: recorded in the build log (an output of the old manifest) and appearing nowhere in the new graph
